@@ -230,6 +230,15 @@ Holds3(C, st) ==
     [] st.k = "imp"  -> LET c == TruthOf(Eval(C, st.c, 0)) IN
                         IF c = "U" THEN "U" ELSE IF c = "F" THEN "T" ELSE HoldsAll(C, st.body)
     [] st.k = "uniq" -> PairsDistinct(C, UniqArgs(C, st.args, 1), 1, 2)
+    [] st.k = "uniqv" ->
+         \* unique_vec: the lists, read as vectors of their exposed elements, are pairwise different - two vectors differ
+         \* when they differ at some position.  Vectors of different length are a user error, and whether two EMPTY vectors
+         \* differ is not stated: both are left undefined.
+         LET n == C.sz[AbsP(C.own, st.ls[1])]
+             el(a, j) == [k |-> "sub", l |-> st.ls[a], p |-> "", i |-> [k |-> "lit", w |-> 32, s |-> TRUE, bits |-> NatBits(j, 32)]]
+             differ(a, b) == Any3({TruthOf(Eval(C, [k |-> "bin", op |-> "ne", l |-> el(a, j), r |-> el(b, j)], 0)) : j \in 0..(n - 1)})
+         IN IF n = 0 \/ \E a \in 1..Len(st.ls) : C.sz[AbsP(C.own, st.ls[a])] # n THEN "U"
+            ELSE All3({differ(ab[1], ab[2]) : ab \in {x \in (1..Len(st.ls)) \X (1..Len(st.ls)) : x[1] < x[2]}})
     [] st.k = "foreach" ->
          \* the list is named from the owner, or (nested foreach) below the element bound by an enclosing foreach
          LET lp == IF st.of = "" THEN AbsP(C.own, st.l) ELSE C.bind[st.of].p \o "." \o st.l
